@@ -1047,6 +1047,11 @@ def c18_savetxt_cp_trans(ctx):
                                      "savetxt(order=dat_order, cp_trans=c, save_charge=True) reproduce the momentum file row by row (E, px, py, pz of every particle "
                                      "of every event, whatever its charge) and the charge file; loading the written files again gives the same data in every leaf",
     }
+    cl["load_sign/no_weight_no_charge"] = (
+        "a momentum file loaded through ConfigLoader as a sample whose weights carry a sign (bg / inmc: weight_sign -1) or not (data / phsp), WITHOUT weight "
+        "or charge files, with bg_weight unset, 1, or 0.5 and the data option cp_trans default / false: the stored momenta equal the file rows exactly, every "
+        "charge is +1, every weight is sign * bg_weight, and savetxt(order=dat_order) reproduces the file (added after seeded change "
+        "C18-shared_default_array_weight_sign: per-event defaults equal to 1 must be independent arrays)")
     for k, c in cl.items():
         acc.declare(k, c)
     sname = "s000"
@@ -1160,9 +1165,68 @@ def c18_savetxt_cp_trans(ctx):
                                 data2, err = _try(lambda: load(cfg2))
                                 msg = err or struct_equal(D.data_to_numpy(_plain(data2)), D.data_to_numpy(_plain(data)), "reloaded")
                             acc.add("savetxt_cp/file_roundtrip", not msg, dict(w, mismatch=msg))
+            # (c) samples without weight / charge files: per-event defaults
+            for perm in perms[:2]:
+                n = 5
+                ps = [np.array(p) for p in M.phsp(ctx, sname, n, ctx.seed + 195)]
+                rows = rows_of(M.p4dict(sname, ps), perm)
+                for sample, sign in (("data", 1.0), ("phsp", 1.0), ("bg", -1.0)):
+                    for bgw in (None, 1, 0.5):
+                        for opt in (None, False):
+                            if sample != "bg" and bgw is not None:
+                                continue
+                            k_dir += 1
+                            d = os.path.join(tmp, "c%d" % k_dir)
+                            os.mkdir(d)
+                            f_in = os.path.join(d, "in.dat")
+                            np.savetxt(f_in, rows)
+                            dsec = {"dat_order": list(perm), sample: [f_in]}
+                            if bgw is not None:
+                                dsec["bg_weight"] = bgw
+                            if opt is not None:
+                                dsec["cp_trans"] = opt
+                            cfg = M.build_config(sname, chains=["bc", "cd"], data=dsec)
+                            w = {"structure": sname, "dat_order": list(perm), "sample": sample, "bg_weight": bgw, "data option cp_trans": "default" if opt is None else opt,
+                                 "config_dict": cfg, "rows": rows.tolist()}
+                            ctx.count(key=("defaults", perm, sample, bgw, opt), sample={k: v for k, v in w.items() if k not in ("config_dict", "rows")})
+
+                            def load_s(cfg_=cfg, sample=sample):
+                                got = ConfigLoader(copy.deepcopy(cfg_)).get_data(sample)
+                                return got[0] if isinstance(got, (list, tuple)) else got
+
+                            data, err = _try(load_s)
+                            msg = err or ""
+                            if not msg:
+                                got_rows = np.stack([np.asarray(data["particle"][_key_of(data["particle"], nm_)]["p"]) for nm_ in perm], axis=1).reshape(-1, 4)
+                                cc = np.asarray(data.get("charge_conjugation", np.ones(n))).reshape(-1)
+                                wt = np.asarray(data.get("weight", np.ones(n))).reshape(-1)
+                                want_w = sign * (1.0 if (bgw is None or sample != "bg") else float(bgw))
+                                if not np.array_equal(got_rows, rows):
+                                    r = int(np.argwhere((got_rows != rows).any(axis=1))[0][0])
+                                    msg = "event %d particle %s: stored (E,px,py,pz) %s, the file has %s" % (r // len(perm), perm[r % len(perm)], got_rows[r].tolist(), rows[r].tolist())
+                                elif not np.array_equal(cc, np.ones(n)):
+                                    msg = "charge_conjugation %s, expected all +1 (no charge file)" % cc.tolist()
+                                elif not np.allclose(wt, want_w, rtol=1e-15, atol=0):
+                                    msg = "weights %s, expected all %r" % (wt.tolist(), want_w)
+                            if not msg:
+                                f_out = os.path.join(d, "out.dat")
+                                _, err = _try(lambda: data.savetxt(f_out, order=list(perm)))
+                                msg = err or ""
+                                if not msg:
+                                    raw = np.loadtxt(f_out).reshape(-1, 4)
+                                    if raw.shape != rows.shape or not np.array_equal(raw, rows):
+                                        msg = "savetxt(load(file)) differs from the file: first rows %s vs %s" % (raw[:2].tolist(), rows[:2].tolist())
+                            acc.add("load_sign/no_weight_no_charge", not msg, dict(w, mismatch=msg))
     finally:
         shutil.rmtree(tmp, ignore_errors=True)
     acc.flush()
+
+
+def _key_of(dic, name):
+    for k in dic:
+        if str(k) == name:
+            return k
+    raise KeyError(name)
 
 
 def _plain(data):
